@@ -9,7 +9,7 @@ import ast
 
 from .. import astutil as A
 from ..cfg import cfg_of, within
-from ..dataflow import derives, local_defs
+from ..dataflow import derives, local_defs, expand
 
 
 def _rets(f):
@@ -155,15 +155,105 @@ def delete_in_shape(ck, rule):
                'delete_in does not recurse as delete_in(d[head], path[1:])')
 
 
+def _iterative_descent(f, d, path, default):
+    """get_in written as a loop: a cursor that starts at the dictionary and
+    steps ``cur = cur[k]`` over the path elements in order.  Returns None
+    when no such loop exists, else a list of (ok, construct, what, message)
+    obligations."""
+    defs = local_defs(f.node)
+    cfg = cfg_of(f.node)
+    for lp in A.walk_no_nested(f.node):
+        if not isinstance(lp, (ast.While, ast.For)):
+            continue
+        steps = [s for s in A.walk_no_nested(lp) if isinstance(s, ast.Assign)
+                 and isinstance(s.targets[0], ast.Name) and isinstance(
+                     s.value, ast.Subscript) and A.is_name(
+                     s.value.value, s.targets[0].id)
+                 and not isinstance(s.value.slice, ast.Slice)]
+        if len(steps) != 1:
+            continue
+        st = steps[0]
+        cur = st.targets[0].id
+        key = s_key = st.value.slice
+        starts = [x for x in defs.get(cur, []) if x.stmt is not st]
+        ok_start = cur == d or (bool(starts) and all(
+            x.value is not None and A.is_name(x.value, d) for x in starts))
+        # the key: loop variable of `for k in path`, or rem[0] with
+        # rem = path before and rem = rem[1:] inside the loop
+        key_txt = A.unparse(expand(f.node, key, st))
+        if isinstance(lp, ast.For):
+            ok_key = A.is_name(lp.iter, path) and A.unparse(lp.target) == \
+                A.unparse(key)
+            shrink_ok = True
+            rem = path
+        else:
+            m = [n2 for n2 in ast.walk(expand(f.node, key, st))
+                 if isinstance(n2, ast.Subscript) and isinstance(
+                     n2.value, ast.Name) and A.unparse(n2.slice) == '0']
+            rem = m[0].value.id if m else None
+            ok_key = rem is not None and key_txt == '%s[0]' % rem
+            rdefs = defs.get(rem, []) if rem else []
+            inside = [x for x in rdefs if within(x.stmt, lp)]
+            outside = [x for x in rdefs if not within(x.stmt, lp)]
+            shrink_ok = len(inside) == 1 and _tail_ok(
+                inside[0].value, rem) and (rem == path or (
+                    bool(outside) and all(A.is_name(x.value, path)
+                                          for x in outside)))
+            t = A.unparse(lp.test).replace(' ', '')
+            shrink_ok = shrink_ok and t in (
+                rem, 'len(%s)>0' % rem, '%s!=()' % rem, 'len(%s)!=0' % rem)
+        out = [(ok_start, st, 'the descent starts at the dictionary given',
+                'get_in does not start its descent at the dictionary it '
+                'was given'),
+               (ok_key and shrink_ok, st,
+                'each round steps into the next path element, in order',
+                'get_in does not step through the path elements one by one '
+                '(key %s)' % key_txt)]
+        miss = [r for r in _rets(f) if A.is_name(r.value, default)]
+        okm = bool(miss) and all(
+            within(r, lp) and any(a[0] == 'notin' and a[2] == cur
+                                  for a in cfg.guards(cfg.node(r)))
+            and cfg.dominates(cfg.node(_guard_if(r)), cfg.node(st))
+            for r in miss)
+        out.append((okm, miss[0] if miss else lp,
+                    'a missing key returns the default (only then), before '
+                    'stepping', 'get_in returns the default although the '
+                    'key is present, or never'))
+        fin = [r for r in _rets(f) if A.is_name(r.value, cur)
+               and not within(r, lp)]
+        out.append((bool(fin), fin[0] if fin else lp,
+                    'after the last element the node reached is returned',
+                    'get_in does not return the node it reached'))
+        return out
+    return None
+
+
+def _guard_if(node):
+    p = node
+    while p is not None and not isinstance(p, ast.If):
+        p = getattr(p, '_parent', None)
+    return p if p is not None else node
+
+
 def get_in_shape(ck, rule):
     f = ck.fn('get_in', 'library.topology')
     cfg = cfg_of(f.node)
     d, path, default = A.params_of(f.node)[:3]
     rets = _rets(f)
-    base = [r for r in rets if A.is_name(r.value, d)]
-    miss = [r for r in rets if A.is_name(r.value, default)]
     rec = [r for r in rets if isinstance(r.value, ast.Call) and A.call_name(
         r.value) == 'get_in']
+    if not rec and not list(A.calls_in(f.node, 'get_in')):
+        it = _iterative_descent(f, d, path, default)
+        if it is None:
+            ck.undecided(rule, f, f.node.name,
+                         'get_in is neither the recursion get_in(d[head], '
+                         'path[1:], default) nor a cursor loop over the path')
+            return
+        for ok, c, what, msg in it:
+            ck.require(ok, rule, f, c, what, msg)
+        return
+    base = [r for r in rets if A.is_name(r.value, d)]
+    miss = [r for r in rets if A.is_name(r.value, default)]
     ok = bool(base) and all(('falsy', path) in cfg.guards(cfg.node(r)) or
                             not any(a[1] == path for a in cfg.guards(
                                 cfg.node(r)) if a[0] == 'truthy')
